@@ -23,6 +23,18 @@ pub enum Target {
     /// map of strings behind `RcAnchor`: values are created and looked up through the thread's anchor
     /// store, so state that survives a call or a document shows up as a value of another document
     RcMap,
+    /// a sequence whose elements fall back to their default when they cannot be deserialized (the
+    /// `DefaultOnError` pattern): the element swallows whatever error it is shown, a reader failure included
+    LenientVec,
+}
+
+/// `T`, or its default when `T` cannot be deserialized.
+#[derive(Debug, Default, PartialEq)]
+pub struct Lenient<T>(pub T);
+impl<'de, T: Deserialize<'de> + Default> Deserialize<'de> for Lenient<T> {
+    fn deserialize<D: serde::Deserializer<'de>>(d: D) -> Result<Self, D::Error> {
+        Ok(Lenient(T::deserialize(d).unwrap_or_default()))
+    }
 }
 
 /// `RcAnchor<String>` with a Debug form that shows the text (the library's own shows the address).
@@ -40,7 +52,8 @@ impl<'de> Deserialize<'de> for RcS {
 
 pub type RcMapT = BTreeMap<String, RcS>;
 
-pub const ALL_TARGETS: [Target; 16] = [
+pub const ALL_TARGETS: [Target; 17] = [
+    Target::LenientVec,
     Target::RcMap,
     Target::Json,
     Target::Cfg,
@@ -137,6 +150,7 @@ macro_rules! with_target {
             $crate::types::Target::F64 => $f::<f64>($($args),*),
             $crate::types::Target::Bool => $f::<bool>($($args),*),
             $crate::types::Target::RcMap => $f::<$crate::types::RcMapT>($($args),*),
+            $crate::types::Target::LenientVec => $f::<Vec<$crate::types::Lenient<i64>>>($($args),*),
         }
     };
 }
